@@ -42,6 +42,10 @@ func (e *Executor) Status(ctx context.Context, calls ...*Call) error {
 }
 
 func (e *Executor) statusOnError(t *ast.Task) error {
+	// A dry run has not recorded a fingerprint and must not remove one either
+	if e.Dry {
+		return nil
+	}
 	method := t.Method
 	if method == "" {
 		method = e.Taskfile.Method
